@@ -8,7 +8,8 @@ EO = "breezy.filters.eol"
 FUNCTIONS = [EO + ":_to_lf_converter", EO + ":_to_crlf_converter", EO + ":eol_lookup",
              FI + ":filtered_output_bytes", FI + ":filtered_input_file"]
 STUBS = ["_UNIX_NL_RE (the compiled look-behind pattern the module built) is interpreted by the generic regex walker",
-         "working-tree file = in-memory file object"]
+         "working-tree file = in-memory file object whose read(n) may return fewer bytes than asked for (at least one while data "
+         "remains; how many is a symbolic choice - what the io contract allows)"]
 ASSUMPTIONS = ["canonical form: LF-in-repo settings: no CRLF in the text; CRLF-in-repo settings: every LF is preceded by "
                "CR and there is no CR CR LF; 'exact': anything; content containing NUL is binary"]
 OUTSIDE = ["content longer than the bound", "the dirstate / working tree sentence of the property (no changes after "
@@ -33,11 +34,24 @@ def canonical(c, key):
 
 
 class _File:
-    def __init__(self, data):
-        self.data = data
+    """a readable binary file: read() returns the rest; read(n) returns UP TO n bytes - at least one while data remains, how
+    many is a symbolic choice (what the io contract allows), so code that converts block by block meets every block boundary"""
+    def __init__(self, data, cx=None):
+        self.data, self.pos, self.cx, self.calls = data, 0, cx, 0
 
-    def read(self):
-        return self.data
+    def read(self, size=-1):
+        rest = len(self.data) - self.pos
+        if size is None or size < 0 or rest == 0:
+            k = rest
+        else:
+            self.calls += 1
+            k = self.cx.choose("read%d.returns" % self.calls, 1, min(size, rest))
+        out = self.data[self.pos:self.pos + k]
+        self.pos += k
+        return out
+
+    def close(self):
+        pass
 
 
 def ob_filters(cx):
@@ -51,7 +65,7 @@ def ob_filters(cx):
     chunks = [c[:k], c[k:]]
     has_nul = cx.truth(s_or([c[i] == 0 for i in range(n)]))
     out = cat(F.filtered_output_bytes(list(chunks), stack), b"")
-    f, size = F.filtered_input_file(_File(out), stack)
+    f, size = F.filtered_input_file(_File(out, cx), stack)
     back = f.read()
     cx.require(size == len(back), "filtered_input_file size does not match its content")
     whole = cat(F.filtered_output_bytes([c], stack), b"")
